@@ -582,6 +582,9 @@ class Controller:
         )
 
     def find_connection_by_handle(self, handle: int) -> Connection | None:
+        if handle == 0:
+            # Placeholder handle of links that are not established yet
+            return None
         for connection in itertools.chain(
             self.le_connections.values(),
             self.classic_connections.values(),
@@ -591,18 +594,27 @@ class Controller:
         return None
 
     def find_le_connection_by_handle(self, handle: int) -> Connection | None:
+        if handle == 0:
+            # Placeholder handle of links that are not established yet
+            return None
         for connection in self.le_connections.values():
             if connection.handle == handle:
                 return connection
         return None
 
     def find_classic_connection_by_handle(self, handle: int) -> Connection | None:
+        if handle == 0:
+            # Placeholder handle of links that are not established yet
+            return None
         for connection in self.classic_connections.values():
             if connection.handle == handle:
                 return connection
         return None
 
     def find_classic_sco_link_by_handle(self, handle: int) -> ScoLink | None:
+        if handle == 0:
+            # Placeholder handle of links that are not established yet
+            return None
         for connection in self.sco_links.values():
             if connection.handle == handle:
                 return connection
